@@ -3,3 +3,4 @@ import Proofs.Chain
 import Proofs.Pairing
 import Proofs.PairingOrder
 import Proofs.Cigar
+import Proofs.Vector
